@@ -6,7 +6,7 @@ import glob, json, os, subprocess
 V = os.path.dirname(os.path.dirname(os.path.abspath(__file__)))
 PROP = {  # commit subject prefix -> property
  "AuditableStore.add": "C18", "ConjunctiveGraph.triples honours": "C02", "DELETE/INSERT applies": "C10",
- "property paths respect": "C11", "Collection.__getitem__": "C19", "JSON-LD serialisation no longer": "C13",
+ "property paths respect": "C11", "a path pattern on a ReadOnlyGraphAggregate": "C11", "zero-or-more / one-or-more paths no longer": "C11", "membership of a path pattern": "C11", "a partly iterated query result": "C16", "a Literal with a Decimal value": "C16", "a Variable whose name begins": "C07", "Collection.__getitem__": "C19", "JSON-LD serialisation no longer": "C13",
  "NamespaceManager drops": "C17", "N-Quads and HexTuples parsers": "C12", "SimpleMemory.triples": "C01",
  "Memory no longer reports": "C01", "a quad whose graph is None": "C02", "backward evaluation of a sequence": "C11",
  "zero-or-more / zero-or-one": "C11", "Collection.index()": "C19", "Collection indexing": "C19",
